@@ -63,6 +63,16 @@ def nightly_sysroot():
         raise InfraError(f"nightly toolchain unavailable: {e}")
 
 
+def _driver_stale():
+    """a source file of the driver is newer than the binary"""
+    bt = _mtime(DRIVER)
+    for dp, _, fns in os.walk(os.path.join(DRIVER_DIR, "src")):
+        for fn in fns:
+            if _mtime(os.path.join(dp, fn)) > bt:
+                return True
+    return False
+
+
 def build_driver():
     env = dict(os.environ, CARGO_NET_OFFLINE="true")
     r = subprocess.run(["cargo", "build", "--offline"], cwd=DRIVER_DIR, env=env,
@@ -105,7 +115,7 @@ def generate(root=None, force=False):
     try:
         if os.path.exists(marker) and not force:
             return out
-        if not os.path.exists(DRIVER):
+        if not os.path.exists(DRIVER) or _driver_stale():
             build_driver()
         shutil.rmtree(out, ignore_errors=True)
         os.makedirs(out)
